@@ -669,4 +669,17 @@ func corpus(em *lib.Emitter, byName map[string]*typeEntry) {
 		mustMarshal(&tecdsadkgpb.PreParams{Data: &tecdsadkgpb.PreParams_LocalPreParams{NTilde: []byte{5}}}), nil, "corpus/preparams-data-without-key")
 	runCase(em, byName["gjkr.PeerSharesMessage"], "corrupt", "corpus:peershares-entry-without-value",
 		[]byte{0x08, 0x01, 0x12, 0x02, 0x08, 0x05}, nil, "corpus/peershares-entry-without-value")
+	// decoded values are independent (seeded C19a: one proposal instance per action type shared by
+	// all decoded coordination messages): two messages of each action type, a rejected one between
+	for at := 1; at <= 5; at++ {
+		var steps []hstepRaw
+		for j := 0; j < 2; j++ {
+			b := mustMarshal(cm.gen(r, at))
+			steps = append(steps, hstepRaw{"roundtrip", fmt.Sprintf("gen:%d", at), b, b})
+		}
+		bad := proto.Clone(cm.gen(r, at)).(*tbtcpb.CoordinationMessage)
+		bad.SenderID = 300
+		steps = append(steps[:1], hstepRaw{"corrupt", "corpus:sender-300", mustMarshal(bad), nil}, steps[1])
+		runHistory(em, cm, "corpus:coordination-same-action", steps, at%2 == 0, fmt.Sprintf("corpus/history-coordination-action-%d", at))
+	}
 }
